@@ -87,7 +87,7 @@ class StrictFieldMappingFailure(PreprocessingTransformation):
             # are represented by the current field names
             unmapped_fields = []
 
-            for field in all_fields:
+            for field in sorted(all_fields):  # sorted: the message must not depend on set order
                 # Check if this field is in the target_fields (meaning it was mapped from an original field)
                 # or if it's in the field_mappings keys (meaning it was an original field that was mapped)
                 is_mapped = field in field_mappings or field in field_mappings.target_fields
